@@ -1,1 +1,192 @@
 //! verif-hooks: lang area (read-only accessors; see mod.rs)
+//!
+//! `lex_parse` runs the real lexer on a text, applies the same
+//! missing-open-parenthesis completion as `eval::evaluate_to_value`, hands the
+//! token stream to `parser::parse_tokens` and returns both the token stream
+//! and the resulting AST (or the `ParseError` variant) as a neutral tree.
+//! Nothing is evaluated.
+
+use crate::ast::{BitwiseBop, Bop, Expr};
+use crate::lexer::{self, Symbol, Token};
+use crate::parser::{self, ParseError};
+use crate::value::Value;
+
+/// Neutral dump tree (converted to the harness wire format outside).
+#[derive(Clone, Debug, PartialEq, Eq)]
+pub enum Dump {
+	A(i64),
+	S(Vec<u8>),
+	L(Vec<Dump>),
+}
+
+fn s(t: &str) -> Dump {
+	Dump::S(t.as_bytes().to_vec())
+}
+
+fn l(v: Vec<Dump>) -> Dump {
+	Dump::L(v)
+}
+
+/// Stable numbering of lexer symbols (by name, independent of declaration order).
+#[must_use]
+fn symbol_code(sym: Symbol) -> i64 {
+	match sym {
+		Symbol::OpenParens => 0,
+		Symbol::CloseParens => 1,
+		Symbol::Add => 2,
+		Symbol::Sub => 3,
+		Symbol::Mul => 4,
+		Symbol::Div => 5,
+		Symbol::Mod => 6,
+		Symbol::Pow => 7,
+		Symbol::BitwiseAnd => 8,
+		Symbol::BitwiseOr => 9,
+		Symbol::BitwiseXor => 10,
+		Symbol::UnitConversion => 11,
+		Symbol::Factorial => 12,
+		Symbol::Fn => 13,
+		Symbol::Backslash => 14,
+		Symbol::Dot => 15,
+		Symbol::Of => 16,
+		Symbol::ShiftLeft => 17,
+		Symbol::ShiftRight => 18,
+		Symbol::Semicolon => 19,
+		Symbol::Equals => 20,
+		Symbol::DoubleEquals => 21,
+		Symbol::NotEquals => 22,
+		Symbol::Combination => 23,
+		Symbol::Permutation => 24,
+	}
+}
+
+fn bop_code(b: Bop) -> i64 {
+	match b {
+		Bop::Plus => 0,
+		Bop::ImplicitPlus => 1,
+		Bop::Minus => 2,
+		Bop::Mul => 3,
+		Bop::Div => 4,
+		Bop::Mod => 5,
+		Bop::Pow => 6,
+		Bop::Bitwise(BitwiseBop::And) => 7,
+		Bop::Bitwise(BitwiseBop::Or) => 8,
+		Bop::Bitwise(BitwiseBop::Xor) => 9,
+		Bop::Bitwise(BitwiseBop::LeftShift) => 10,
+		Bop::Bitwise(BitwiseBop::RightShift) => 11,
+		Bop::Combination => 12,
+		Bop::Permutation => 13,
+	}
+}
+
+fn dump_token(t: &Token) -> Dump {
+	match t {
+		Token::Num(n) => l(vec![s("n"), s(&format!("{n:?}"))]),
+		Token::Ident(i) => l(vec![s("i"), s(i.as_str())]),
+		Token::Symbol(sym) => l(vec![s("y"), Dump::A(symbol_code(*sym))]),
+		Token::StringLiteral(x) => l(vec![s("s"), s(x)]),
+		Token::Date(d) => l(vec![s("d"), s(&format!("{d:?}"))]),
+	}
+}
+
+fn dump_value(v: &Value) -> Dump {
+	match v {
+		Value::Num(n) => l(vec![s("num"), s(&format!("{n:?}"))]),
+		Value::String(x) => l(vec![s("str"), s(x)]),
+		Value::Date(d) => l(vec![s("date"), s(&format!("{d:?}"))]),
+		Value::Unit => l(vec![s("unit")]),
+		other => l(vec![s("other-literal"), s(&format!("{other:?}"))]),
+	}
+}
+
+fn dump_expr(e: &Expr) -> Dump {
+	let un = |tag: &str, a: &Expr| l(vec![s(tag), dump_expr(a)]);
+	let bin = |tag: &str, a: &Expr, b: &Expr| l(vec![s(tag), dump_expr(a), dump_expr(b)]);
+	match e {
+		Expr::Literal(v) => dump_value(v),
+		Expr::Ident(i) => l(vec![s("id"), s(i.as_str())]),
+		Expr::Parens(a) => un("par", a),
+		Expr::UnaryMinus(a) => un("neg", a),
+		Expr::UnaryPlus(a) => un("pos", a),
+		Expr::UnaryDiv(a) => un("inv", a),
+		Expr::Factorial(a) => un("fact", a),
+		Expr::Bop(b, x, y) => l(vec![
+			s("bop"),
+			Dump::A(bop_code(*b)),
+			dump_expr(x),
+			dump_expr(y),
+		]),
+		Expr::Apply(a, b) => bin("app", a, b),
+		Expr::ApplyFunctionCall(a, b) => bin("appf", a, b),
+		Expr::ApplyMul(a, b) => bin("appm", a, b),
+		Expr::As(a, b) => bin("as", a, b),
+		Expr::Fn(i, a) => l(vec![s("fn"), s(i.as_str()), dump_expr(a)]),
+		Expr::Of(i, a) => l(vec![s("of"), s(i.as_str()), dump_expr(a)]),
+		Expr::Assign(i, a) => l(vec![s("asg"), s(i.as_str()), dump_expr(a)]),
+		Expr::Equality(is_eq, a, b) => l(vec![
+			s("eq"),
+			Dump::A(i64::from(*is_eq)),
+			dump_expr(a),
+			dump_expr(b),
+		]),
+		Expr::Statements(a, b) => bin("stmts", a, b),
+	}
+}
+
+fn dump_parse_error(e: &ParseError) -> Dump {
+	let sy = |x: &Symbol| Dump::A(symbol_code(*x));
+	match e {
+		ParseError::ExpectedAToken => l(vec![s("perr"), s("ExpectedAToken")]),
+		ParseError::ExpectedToken(a, b) => l(vec![s("perr"), s("ExpectedToken"), sy(a), sy(b)]),
+		ParseError::FoundInvalidTokenWhileExpecting(a) => {
+			l(vec![s("perr"), s("FoundInvalidTokenWhileExpecting"), sy(a)])
+		}
+		ParseError::ExpectedANumber => l(vec![s("perr"), s("ExpectedANumber")]),
+		ParseError::ExpectedIdentifier => l(vec![s("perr"), s("ExpectedIdentifier")]),
+		ParseError::UnexpectedSymbol(a) => l(vec![s("perr"), s("UnexpectedSymbol"), sy(a)]),
+		ParseError::InvalidApplyOperands => l(vec![s("perr"), s("InvalidApplyOperands")]),
+		ParseError::UnexpectedInput => l(vec![s("perr"), s("UnexpectedInput")]),
+		ParseError::ExpectedIdentifierAsArgument => {
+			l(vec![s("perr"), s("ExpectedIdentifierAsArgument")])
+		}
+		ParseError::ExpectedIdentifierInAssignment => {
+			l(vec![s("perr"), s("ExpectedIdentifierInAssignment")])
+		}
+		ParseError::ExpectedDotInLambda => l(vec![s("perr"), s("ExpectedDotInLambda")]),
+		ParseError::InvalidMixedFraction => l(vec![s("perr"), s("InvalidMixedFraction")]),
+	}
+}
+
+/// Lex `text` with the given decimal-separator style (`comma = true` for
+/// `DecimalSeparatorStyle::Comma`), complete missing open parentheses exactly
+/// as `eval::evaluate_to_value` does, parse.  Returns
+/// `("lexerr" "<Debug of FendError>")` or
+/// `("ok" (tokens...) <ast or ("perr" ...)>)`.
+#[must_use]
+pub fn lex_parse(text: &str, comma: bool) -> Dump {
+	let mut ctx = crate::Context::new();
+	if comma {
+		ctx.set_decimal_separator_style(crate::DecimalSeparatorStyle::Comma);
+	}
+	let int = crate::interrupt::Never;
+	let mut tokens = vec![];
+	let mut missing_open_parens: i32 = 0;
+	for token in lexer::lex(text, &ctx, &int) {
+		let token = match token {
+			Ok(t) => t,
+			Err(e) => return l(vec![s("lexerr"), s(&format!("{e:?}"))]),
+		};
+		if matches!(token, Token::Symbol(Symbol::CloseParens)) {
+			missing_open_parens += 1;
+		}
+		tokens.push(token);
+	}
+	for _ in 0..missing_open_parens {
+		tokens.insert(0, Token::Symbol(Symbol::OpenParens));
+	}
+	let toks = l(tokens.iter().map(dump_token).collect());
+	let ast = match parser::parse_tokens(&tokens) {
+		Ok(e) => dump_expr(&e),
+		Err(e) => dump_parse_error(&e),
+	};
+	l(vec![s("ok"), toks, ast])
+}
